@@ -376,7 +376,7 @@ def st1(proj, rep, modules):
 
 
 # ------------------------------------------------------------------------------------------------ N2
-RULE_N2 = ('N2: a norm taken of an array that was explicitly flattened into a batch of vectors, `linalg.norm(X.reshape(-1, n), ...)`, names the vector '
+RULE_N2 = ('N2: a norm taken of an array that was explicitly flattened into a batch of vectors, `linalg.norm(X.reshape(-1, n), ...)`, or drawn as a (count, dim) sample, names the vector '
            'axis (`axis=1` / `dim=1`): without it NumPy returns ONE matrix norm of the whole stack (Frobenius, or the largest singular value for '
            'ord=2), which equals the per-item norm only for a batch of one.')
 
@@ -396,8 +396,18 @@ def n2(proj, rep, modules):
                     asg = [s.value for s in ast.walk(fi.node) if isinstance(s, ast.Assign) and isinstance(s.targets[0], ast.Name) and s.targets[0].id == a.id]
                     if len(asg) == 1:
                         a = asg[0]
-                if not (isinstance(a, ast.Call) and isinstance(a.func, ast.Attribute) and a.func.attr == 'reshape' and len(a.args) == 2
-                        and ast.unparse(a.args[0]).replace(' ', '') == '-1'):
+                    else:
+                        from ..dataflow import reaching_defs
+                        rd = [v for v, st, p in reaching_defs(fi.node, a.id, c) if v != 'param' and p is None]
+                        if len(rd) == 1:
+                            a = rd[0]
+                flat = isinstance(a, ast.Call) and isinstance(a.func, ast.Attribute) and a.func.attr == 'reshape' and len(a.args) == 2 \
+                    and ast.unparse(a.args[0]).replace(' ', '') == '-1'
+                # a random sample drawn as a (count, dim) table is a batch of vectors as well
+                size = next((k.value for k in a.keywords if k.arg == 'size'), None) if isinstance(a, ast.Call) else None
+                sample = isinstance(a, ast.Call) and isinstance(a.func, ast.Attribute) and a.func.attr in ('normal', 'standard_normal', 'uniform', 'random', 'randn') \
+                    and isinstance(size, ast.Tuple) and len(size.elts) == 2
+                if not (flat or sample):
                     continue
                 n += 1
                 has_axis = any(k.arg in ('axis', 'dim') for k in c.keywords) or len(c.args) >= 3
@@ -1169,4 +1179,212 @@ def dt3(proj, rep, modules):
                     rep.violation('DT3', fi.qual, f'`{ast.unparse(c)[:90]}`: every factor is an integer tensor (torch.arange without dtype); torch.sqrt of an int64 tensor is float32, '
                                   f'so the normalisation carries float32 rounding (~1e-8) even for float64 / complex128 input', m, c)
     rep.count('DT3.torch_sqrt_of_arange', n)
+    return n
+
+
+# ------------------------------------------------------------------------------------------------ UP1 / FW1 / FZ1 / SO1 / ID1 / EV1 / ST2 / PU2
+RULE_UP1 = ('UP1: a parameter that the function normalises (`flag = bool(flag)`, `n = int(n)`) is used afterwards: a parameter whose only reads are its own '
+            'normalisation is silently ignored (the documented option has no effect).')
+RULE_FW1 = ('FW1: a parameter that a function accepts but never reads is forwarded to the numqi callee that has a parameter of the same name: calling '
+            '`g(x)` where g also takes `zero_eps` while the caller\'s own `zero_eps` is unused drops the caller\'s value and g runs with its default.')
+RULE_FZ1 = ('FZ1: `param or default` is not used on a numeric parameter inside int() / float() / arithmetic: 0 is a legitimate value (spin 0, seed 0, index 0) '
+            'and is silently replaced by the default.')
+RULE_SO1 = ('SO1: a list built from a set (`list(a - b)`, `list(set(..))`) is not used as an index / ordered sequence: the iteration order of a set of ints is '
+            'increasing only while all values are smaller than the hash-table size; beyond that the order is arbitrary. Use sorted(...).')
+RULE_ID1 = ('ID1: a flag parameter is not tested with `is True` / `is False`: numpy booleans (the result of any array comparison) and 0/1 are equal to but not '
+            'identical with True/False, so neither branch runs and the flag is silently ignored.')
+RULE_EV1 = ('EV1: eigenvectors are the COLUMNS of the matrix returned by eigh / eig / eigsh: the k-th eigenvector is `V[:, k]`. `eigh(A)[1][k]` (or `V[k]`) is '
+            'the k-th ROW: a unit vector, but not an eigenvector.')
+RULE_ST2 = ('ST2: the shape that is used to restore a batch layout at the end (`ret.reshape(shape + ...)`) is recorded BEFORE the array is flattened: '
+            '`shape = x.shape` after `x = ....reshape(-1)` records the flat shape, so non-1-D batches come back flat.')
+RULE_PU2 = ('PU2: a builder method that stores a gate object it was given never assigns attributes of that object: the object may be shared with other '
+            'circuits, so re-targeting it silently changes every earlier placement.')
+
+
+def _reads(fn, p):
+    out = []
+    for x in ast.walk(fn):
+        if isinstance(x, ast.Name) and x.id == p and isinstance(x.ctx, ast.Load):
+            st = x
+            while not isinstance(st, ast.stmt):
+                st = st._parent
+            selfnorm = isinstance(st, ast.Assign) and len(st.targets) == 1 and isinstance(st.targets[0], ast.Name) and st.targets[0].id == p
+            out.append((x, st, selfnorm))
+    return out
+
+
+def up1_fw1(proj, rep, modules=None):
+    from ..project import bind_call
+    rep.rule('UP1', RULE_UP1)
+    rep.rule('FW1', RULE_FW1)
+    n1 = n2 = 0
+    for fi in proj.iter_functions():
+        m = fi.module
+        if modules is not None and not any(m.name == q or m.name.startswith(q + '.') for q in modules):
+            continue
+        fn = fi.node
+        if not isinstance(fn, ast.FunctionDef) or fn.name.startswith('__'):
+            continue
+        params = [a.arg for a in fn.args.posonlyargs + fn.args.args + fn.args.kwonlyargs if a.arg not in ('self', 'cls', 'ctx')]
+        for p in params:
+            rd = _reads(fn, p)
+            if rd and all(s for _, _, s in rd):
+                n1 += 1
+                rep.touch(m)
+                rep.violation('UP1', fi.qual, f'parameter `{p}` is only read by its own normalisation `{ast.unparse(rd[0][1])[:50]}`: the option is ignored', m, rd[0][1])
+            elif rd:
+                n1 += 1
+            if not rd:
+                # FW1: same-named parameter of a callee left at its default
+                for c in ast.walk(fn):
+                    if not isinstance(c, ast.Call):
+                        continue
+                    r = resolve_callee(proj, m, c)
+                    if r.kind != 'func' or p not in r.node.all_params or r.node is fi:
+                        continue
+                    try:
+                        b = bind_call(c, r.node)
+                    except Exception:
+                        continue
+                    n2 += 1
+                    if p not in b.args or b.args.get(p) is None:
+                        rep.touch(m)
+                        rep.violation('FW1', fi.qual, f'`{ast.unparse(c)[:70]}`: {r.qual} also takes `{p}`, but the caller\'s own `{p}` is never read, so the callee runs with its '
+                                      f'default and the value given to {fi.qual.rsplit(".", 1)[1]} is ignored', m, c)
+    rep.count('UP1.parameters_read', n1)
+    rep.count('FW1.unread_parameters_checked', n2)
+    if n1:
+        rep.ok('UP1', 'package', f'{n1} parameters are read beyond their own normalisation', proj.mod('numqi.utils'), proj.mod('numqi.utils').tree, text='parameter use')
+    return n1
+
+
+def fz1_so1_id1_ev1(proj, rep, modules=None):
+    for k, v in (('FZ1', RULE_FZ1), ('SO1', RULE_SO1), ('ID1', RULE_ID1), ('EV1', RULE_EV1)):
+        rep.rule(k, v)
+    nfun = 0
+    nev = 0
+    for fi in proj.iter_functions():
+        m = fi.module
+        if modules is not None and not any(m.name == q or m.name.startswith(q + '.') for q in modules):
+            continue
+        fn = fi.node
+        nfun += 1
+        params = set(fi.all_params)
+        eig_names = set()
+        for s in ast.walk(fn):
+            if isinstance(s, ast.Assign) and isinstance(s.value, ast.Call) and ast.unparse(s.value.func).split('.')[-1] in ('eigh', 'eig', 'eigsh', 'eigs'):
+                t = s.targets[0]
+                if isinstance(t, ast.Tuple) and len(t.elts) == 2 and isinstance(t.elts[1], ast.Name):
+                    eig_names.add(t.elts[1].id)
+        for x in ast.walk(fn):
+            # FZ1
+            if isinstance(x, ast.BoolOp) and isinstance(x.op, ast.Or) and isinstance(x.values[0], ast.Name) and x.values[0].id in params:
+                par = x._parent
+                if (isinstance(par, ast.Call) and isinstance(par.func, ast.Name) and par.func.id in ('int', 'float')) or isinstance(par, ast.BinOp):
+                    rep.touch(m)
+                    rep.violation('FZ1', fi.qual, f'`{ast.unparse(par)[:60]}`: `{x.values[0].id} or ...` treats the legitimate value 0 like a missing argument', m, x)
+            # SO1
+            if isinstance(x, ast.Subscript) and isinstance(x.slice, ast.Call) and isinstance(x.slice.func, ast.Name) and x.slice.func.id == 'list' and x.slice.args:
+                a = x.slice.args[0]
+                setty = (isinstance(a, ast.BinOp) and isinstance(a.op, (ast.Sub, ast.BitAnd, ast.BitOr, ast.BitXor))
+                         and any(isinstance(y, ast.Call) and getattr(y.func, 'id', '') in ('set', 'frozenset') for y in ast.walk(a))) \
+                    or (isinstance(a, ast.Call) and getattr(a.func, 'id', '') in ('set', 'frozenset')) or isinstance(a, (ast.Set, ast.SetComp))
+                if setty:
+                    rep.touch(m)
+                    rep.violation('SO1', fi.qual, f'`{ast.unparse(x)[:70]}` indexes with a list taken from a set: its order is arbitrary once a value exceeds the set\'s table size '
+                                  f'(from about 8 on), so the selected entries come out unsorted', m, x)
+            # ID1
+            if isinstance(x, ast.Compare) and len(x.ops) == 1 and isinstance(x.ops[0], (ast.Is, ast.IsNot)) and isinstance(x.comparators[0], ast.Constant) \
+                    and isinstance(x.comparators[0].value, bool) and isinstance(x.left, ast.Name) and x.left.id in params:
+                rep.touch(m)
+                rep.violation('ID1', fi.qual, f'`{ast.unparse(x)}`: identity test on a flag parameter; np.bool_ / 0 / 1 pass the `in {{None,True,False}}` style checks but match '
+                              f'neither `is True` nor `is False`, so the flag is ignored', m, x)
+            # EV1
+            if isinstance(x, ast.Subscript):
+                base = x.value
+                # eigh(...)[1][k]
+                if isinstance(base, ast.Subscript) and isinstance(base.slice, ast.Constant) and base.slice.value == 1 and isinstance(base.value, ast.Call) \
+                        and ast.unparse(base.value.func).split('.')[-1] in ('eigh', 'eig', 'eigsh', 'eigs'):
+                    nev += 1
+                    if not isinstance(x.slice, ast.Tuple):
+                        rep.touch(m)
+                        rep.violation('EV1', fi.qual, f'`{ast.unparse(x)[:70]}` takes a ROW of the eigenvector matrix; the eigenvectors are its columns (`[:, k]`)', m, x)
+                elif isinstance(base, ast.Name) and base.id in eig_names and isinstance(x.ctx, ast.Load):
+                    nev += 1
+                    if isinstance(x.slice, (ast.Constant, ast.UnaryOp)) and not isinstance(x.slice, ast.Tuple):
+                        rep.touch(m)
+                        rep.violation('EV1', fi.qual, f'`{ast.unparse(x)[:50]}` takes a ROW of the eigenvector matrix `{base.id}`; the eigenvectors are its columns', m, x)
+    rep.count('LINT.functions_scanned', nfun)
+    rep.count('EV1.eigenvector_selections', nev)
+    if nfun:
+        rep.ok('FZ1', 'package', f'{nfun} functions scanned: no falsy-zero default, set-ordered index, identity test on a flag or eigenvector row ({nev} eigenvector selections)',
+               proj.mod('numqi.utils'), proj.mod('numqi.utils').tree, text='lint sweep')
+    return nfun
+
+
+def st2(proj, rep, modules=None):
+    rep.rule('ST2', RULE_ST2)
+    n = 0
+    for fi in proj.iter_functions():
+        m = fi.module
+        if modules is not None and not any(m.name == q or m.name.startswith(q + '.') for q in modules):
+            continue
+        bodies = [getattr(x, f) for x in ast.walk(fi.node) for f in ('body', 'orelse', 'finalbody') if isinstance(getattr(x, f, None), list)]
+        for body in bodies:
+            for i, st in enumerate(body):
+                if not (isinstance(st, ast.Assign) and isinstance(st.targets[0], ast.Name) and isinstance(st.value, ast.Attribute) and st.value.attr == 'shape'
+                        and isinstance(st.value.value, ast.Name)):
+                    continue
+                arr, sh = st.value.value.id, st.targets[0].id
+                # is the snapshot used to restore a layout later?
+                restored = any(isinstance(c, ast.Call) and isinstance(c.func, ast.Attribute) and c.func.attr in ('reshape', 'view') and any(
+                    isinstance(y, ast.Name) and y.id == sh for a in c.args for y in ast.walk(a)) for s2 in body[i + 1:] for c in ast.walk(s2))
+                if not restored:
+                    continue
+                n += 1
+                rep.touch(m)
+                flat_before = [s2 for s2 in body[:i] if isinstance(s2, ast.Assign) and any(isinstance(t, ast.Name) and t.id == arr for t in s2.targets)
+                               and any(isinstance(c, ast.Call) and isinstance(c.func, ast.Attribute) and c.func.attr in ('reshape', 'view') and len(c.args) == 1
+                                       and ast.unparse(c.args[0]).replace(' ', '') == '-1' for c in ast.walk(s2.value))]
+                if flat_before:
+                    rep.violation('ST2', fi.qual, f'`{ast.unparse(st)}` records the shape after `{ast.unparse(flat_before[-1])[:60]}` already flattened `{arr}`: the later '
+                                  f'reshape with `{sh}` restores a flat layout, so 2-D / scalar batches come back with the wrong shape', m, st)
+                else:
+                    rep.ok('ST2', fi.qual, f'`{ast.unparse(st)}` taken before `{arr}` is flattened', m, st)
+    rep.count('ST2.shape_snapshots', n)
+    return n
+
+
+def pu2(proj, rep, class_quals):
+    rep.rule('PU2', RULE_PU2)
+    n = 0
+    for cq in class_quals:
+        ci = proj.cls(cq)
+        m = ci.module
+        rep.touch(m)
+        for name, fi in ci.methods.items():
+            if name.endswith('_') and not name.startswith('__'):
+                continue
+            params = [p for p in fi.all_params if p not in ('self',)]
+            if not params:
+                continue
+            n += 1
+            bad = None
+            for s in ast.walk(fi.node):
+                if isinstance(s, (ast.Assign, ast.AugAssign)):
+                    tg = s.targets if isinstance(s, ast.Assign) else [s.target]
+                    for t in tg:
+                        if isinstance(t, ast.Attribute) and isinstance(t.value, ast.Name) and t.value.id in params:
+                            # a parameter re-bound to a fresh object first is not the caller's object
+                            rebound = any(isinstance(s2, ast.Assign) and any(isinstance(t2, ast.Name) and t2.id == t.value.id for t2 in s2.targets) and s2.lineno < s.lineno
+                                          for s2 in ast.walk(fi.node))
+                            if not rebound:
+                                bad = (s, t.value.id)
+            if bad:
+                s, p = bad
+                rep.violation('PU2', f'{cq}.{name}', f'`{ast.unparse(s)[:70]}` assigns an attribute of the object passed as `{p}`: a gate object shared with another circuit is '
+                              f're-targeted there as well', m, s)
+            else:
+                rep.ok('PU2', f'{cq}.{name}', 'does not assign attributes of its arguments', m, fi.node, text=f'{cq}.{name} argument purity')
+    rep.count('PU2.methods', n)
     return n
